@@ -9,6 +9,7 @@ require (
 	github.com/dolthub/go-mysql-server v0.20.1-0.20260819200441-c0b22e21d5fc
 	github.com/dolthub/vitess v0.0.0-20260819175407-19559ab533b7
 	github.com/golang/snappy v0.0.4
+	github.com/mohae/uvarint v0.0.0-20160208145430-c3f9e62bf2b0
 	github.com/sirupsen/logrus v1.8.3
 )
 
@@ -101,7 +102,6 @@ require (
 	github.com/mattn/go-colorable v0.1.13 // indirect
 	github.com/mattn/go-isatty v0.0.17 // indirect
 	github.com/mattn/go-runewidth v0.0.13 // indirect
-	github.com/mohae/uvarint v0.0.0-20160208145430-c3f9e62bf2b0 // indirect
 	github.com/oracle/oci-go-sdk/v65 v65.55.0 // indirect
 	github.com/pierrec/lz4/v4 v4.1.6 // indirect
 	github.com/pkg/browser v0.0.0-20240102092130-5ac0b6a4141c // indirect
